@@ -126,9 +126,35 @@ def defs_scan(src, fr):
     return out
 
 
+def body_is_scan(src, fr):
+    """the definition of `function` is literally the given statements (docstring dropped) and carries the given decorators:
+    a model field that stands for a property (Process.pid = self._worker.pid) is tied to the code this way"""
+    import ast
+    bad = []
+    try:
+        fi = src.find(fr['function'])
+        body = list(fi.node.body)
+        if body and isinstance(body[0], ast.Expr) and isinstance(getattr(body[0], 'value', None), ast.Constant) \
+                and isinstance(body[0].value.value, str):
+            body = body[1:]
+        text = '; '.join(ast.unparse(b) for b in body)
+        decos = [ast.unparse(d) for d in fi.node.decorator_list]
+        if text != fr['body']:
+            bad.append({'function': fr['function'], 'line': fi.lines[0], 'what': 'body is %r, expected %r' % (text, fr['body'])})
+        if decos != fr.get('decorators', decos):
+            bad.append({'function': fr['function'], 'line': fi.lines[0],
+                        'what': 'decorators are %r, expected %r' % (decos, fr['decorators'])})
+    except Exception as e:
+        bad.append({'function': fr['function'], 'line': 0, 'what': 'not found (%s)' % type(e).__name__})
+    return {'name': 'frame-scan:' + fr['name'], 'what': fr['what'], 'checked': 1, 'sites_found': 1,
+            'ok': not bad, 'violations': bad, 'sites': []}
+
+
 def run(fr, src, spec):
     if fr['kind'] == 'decorated':
         return decorated_scan(src, fr)
+    if fr['kind'] == 'body_is':
+        return body_is_scan(src, fr)
     found = defs_scan(src, fr) if fr['kind'] == 'defs' else sites(src, fr)
     allowed = fr.get('allowed', [])
     bad = []
